@@ -3,7 +3,7 @@ from __future__ import annotations
 import ast
 import z3
 from . import api
-from .core import Unsupported, PathEnd, ReturnSig, BreakSig, ContinueSig, PyRaise
+from .core import simp, Unsupported, PathEnd, ReturnSig, BreakSig, ContinueSig, PyRaise
 from .zsorts import VStruct, VOpt, VBox, VObj, VAbs
 from .interp import Frame, Closure, BoundMethod, is_sym, contains_sym, MUTATORS
 from .exprs import PyList, PyDict
@@ -30,7 +30,11 @@ class StmtMixin:
             return
         if isinstance(s.value, ast.Yield):
             v = self.ev(s.value.value, fr) if s.value.value is not None else None
-            self.path.yields.append(v)
+            ys = self.path.yields
+            if isinstance(ys, VBox):
+                ys.term = z3.Concat(ys.term, z3.Unit(self.zs.lift(v, ys.term.sort().basis())))
+            else:
+                ys.append(v)
             return
         if isinstance(s.value, ast.YieldFrom):
             v = self.ev(s.value.value, fr)
@@ -88,10 +92,13 @@ class StmtMixin:
         elif isinstance(t, (ast.Tuple, ast.List)):
             if isinstance(v, PyList):
                 v = tuple(v.items)
+            if z3.is_expr(v) and v.sort().name() in self.zs.rec_by_sort:
+                dt, S = self.zs.rec_by_sort[v.sort().name()]
+                v = [simp(dt.accessor(0, i)(v)) for i in range(len(S.fields))]
             if not isinstance(v, (tuple, list)):
                 items = None
                 if isinstance(v, VBox) or z3.is_expr(v):
-                    items = self.seq_concrete_items(z3.simplify(self.seqterm(v)))
+                    items = self.seq_concrete_items(simp(self.seqterm(v)))
                 if items is None:
                     raise Unsupported('unpacking a symbolic sequence')
                 v = items
@@ -135,7 +142,7 @@ class StmtMixin:
                 h = n if hi is None else self.norm_index(hi, n)
                 h = z3.If(h < l, l, h)
                 mid = self.as_seq(v, term.sort())
-                base.term = z3.simplify(z3.Concat(z3.SubSeq(term, 0, l), mid, z3.SubSeq(term, h, n - h)))
+                base.term = simp(z3.Concat(z3.SubSeq(term, 0, l), mid, z3.SubSeq(term, h, n - h)))
                 return
             idx = self.ev(t.slice, fr)
             if isinstance(idx, int):
@@ -146,7 +153,7 @@ class StmtMixin:
                 pos = z3.If(idx < 0, idx + n, idx)
             self.index_guard(ok, t)
             x = self.zs.lift(v, term.sort().basis())
-            base.term = z3.simplify(z3.Concat(z3.SubSeq(term, 0, pos), z3.Unit(x), z3.SubSeq(term, pos + 1, n - pos - 1)))
+            base.term = simp(z3.Concat(z3.SubSeq(term, 0, pos), z3.Unit(x), z3.SubSeq(term, pos + 1, n - pos - 1)))
             return
         raise Unsupported('subscript store')
 
@@ -167,7 +174,7 @@ class StmtMixin:
                         ok = z3.And(idx >= -n, idx < n)
                         pos = z3.If(idx < 0, idx + n, idx)
                     self.index_guard(ok, t)
-                    base.term = z3.simplify(z3.Concat(z3.SubSeq(term, 0, pos), z3.SubSeq(term, pos + 1, n - pos - 1)))
+                    base.term = simp(z3.Concat(z3.SubSeq(term, 0, pos), z3.SubSeq(term, pos + 1, n - pos - 1)))
                 elif isinstance(base, PyDict):
                     k = self.ev(t.slice, fr)
                     if is_sym(k) or k not in base.d:
@@ -309,14 +316,52 @@ class StmtMixin:
             if not broke:
                 self.exec_block(s.orelse, fr)
             return
+        if not self.has_loop_contract(s, fr):
+            items = self.const_length_items(sym_seqs)
+            if items is not None:
+                broke = False
+                for x in items:
+                    self.assign(s.target, x, fr)
+                    try:
+                        self.exec_block(s.body, fr)
+                    except BreakSig:
+                        broke = True
+                        break
+                    except ContinueSig:
+                        continue
+                if not broke:
+                    self.exec_block(s.orelse, fr)
+                return
         self.inv_loop(s, fr, sym_seqs)
+
+    def has_loop_contract(self, s, fr):
+        f = fr
+        while f is not None and f.fs is None:
+            f = f.parent
+        return f is not None and f.contract is not None and f.fs.loop_ord.get(id(s)) in f.contract.loops
+
+    def const_length_items(self, view, maxlen=4):
+        """if the path condition fixes the length of the iterated sequence to a small constant, unroll exactly"""
+        n = view.length()
+        sol = z3.Solver()
+        sol.set('timeout', 2000)
+        for c in self.path.pc:
+            sol.add(c)
+        for k in range(maxlen + 1):
+            sol.push()
+            sol.add(n != k)
+            r = sol.check()
+            sol.pop()
+            if r == z3.unsat:
+                return [view.at(z3.IntVal(j)) for j in range(k)]
+        return None
 
     def symbolic_iter(self, it):
         """-> None if concretely iterable, else ('seq'|'zip'|'rev'|'enum', [seq terms])"""
         if isinstance(it, IterView):
             return it
         if isinstance(it, VBox) and it.kind in ('list', 'deque') or (z3.is_expr(it) and isinstance(it.sort(), z3.SeqSortRef) and not z3.is_string(it)):
-            t = z3.simplify(self.seqterm(it))
+            t = simp(self.seqterm(it))
             if self.seq_concrete_items(t) is not None:
                 return None
             return IterView('seq', [t])
@@ -380,6 +425,8 @@ class StmtMixin:
                     raise Unsupported(f'loop-modified concrete container {nm}: declare its sort in Loop.locals')
                 else:
                     fr.env[nm] = self.fresh_like(v, nm)
+        if isinstance(p.yields, VBox) and any(isinstance(n_, (ast.Yield, ast.YieldFrom)) for n_ in ast.walk(s)):
+            self.havoc_inplace(p.yields, '__yield__')
         for lv in lvals:
             root = lv
             # havoc the object the lvalue lives in
@@ -430,7 +477,7 @@ class StmtMixin:
             if lc.decreases:
                 f2 = Frame(None, {'__i': i}, fr.module, fr, cf.contract)
                 f2.extra = dict(self.contract_names(cf))
-                measure0 = self.ev_text(lc.decreases, f2)
+                measure0 = self.ev_text_value(lc.decreases, f2)
             try:
                 self.exec_block(s.body, fr)
             except ContinueSig:
@@ -442,7 +489,7 @@ class StmtMixin:
             if lc.decreases:
                 f2 = Frame(None, {'__i': i + 1}, fr.module, fr, cf.contract)
                 f2.extra = dict(self.contract_names(cf))
-                m1 = self.ev_text(lc.decreases, f2)
+                m1 = self.ev_text_value(lc.decreases, f2)
                 self.oblige(f'decreases#loop{k}', z3.And(measure0 >= 0, m1 < measure0), s, lc.decreases)
             raise PathEnd()
         # exit: invariant holds and guard is false
@@ -493,9 +540,9 @@ class IterView:
 
     def at(self, i):
         if self.kind == 'seq':
-            return z3.simplify(self.seqs[0][i])
+            return self.seqs[0][i]
         if self.kind == 'rev':
-            return z3.simplify(self.seqs[0][z3.Length(self.seqs[0]) - 1 - i])
+            return self.seqs[0][z3.Length(self.seqs[0]) - 1 - i]
         if self.kind == 'enum':
             return (i + self.start, self.inner.at(i))
         if self.kind == 'zip':
